@@ -72,8 +72,8 @@ def cases(tier, seed):
         for seq in pick:
             yield {"family": fam, "seq": list(seq), "mseed": rnd.randrange(1000)}
         # other numerical settings at one call / a training step with part of the model frozen or under other settings
-        for new in ("pred_jitter", "train_step_frozen", "train_step_jitter", "pred_loose", "train_step_via_mll", "load_sd_partial", "fantasy_selfcheck"):
-            if new == "fantasy_selfcheck" and (fam in VAR_FAMS or fam in ("sgpr", "batch_nan", "default_iterative")):
+        for new in ("pred_jitter", "train_step_frozen", "train_step_jitter", "pred_loose", "train_step_via_mll", "load_sd_partial", "fantasy_selfcheck", "fantasy_train"):
+            if new in ("fantasy_selfcheck", "fantasy_train") and (fam in VAR_FAMS or fam in ("sgpr", "batch_nan", "default_iterative")):
                 continue
             if fam == "batch_nan" and new == "pred_jitter":
                 continue
